@@ -12,6 +12,7 @@ PROPERTY_UNITS = {
     'C11': ['u_exp3', 'u_exp2', 'u_blt', 'u_plan', 'u_args', 'u_fd', 'u_exp1', 'u_bfd', 'u_script'],
     'C07': ['u_fd', 'u_proc', 'u_plan', 'u_jobs', 'u_wait', 'u_jcmd', 'u_sig'],
     'C15': ['u_args', 'u_script', 'u_list', 'u_env', 'u_bsh'],
+    'C14': ['u_script'],
     'C09': ['u_env', 'u_exp2', 'u_proc', 'u_read', 'u_fd'],
     'C02': ['u_fd', 'u_wait', 'u_plan', 'u_blt', 'u_sig'],
     'C04': ['u_fd', 'u_plan', 'u_bfd', 'u_blt'],
@@ -192,9 +193,24 @@ META['C11'] = {
             'four known findings (bounded): brace pass on the inner text, builtins in $(..) change the shell, assignment values unquoted again, stderr larger than a pipe.',
 }
 
+META['C14'] = {
+    'text': 'Partial: the interpreter half. Over an opaque parse tree (text, rule and children of a node uninterpreted) Verus proves for the real statement runners of scripting.rs, for every tree: '
+            'run_exp hands the children of a body, in the order written, each to the runner of its kind (a command line to run_command_line after the positional-parameter pass; an if / for / while node '
+            'to its runner, the if with the body\'s own in_loop flag; blank nodes skipped) -- spec evs_upto; a `continue` / `break` written in the body or met by an `if` of it ends the body at once and is '
+            'reported to the caller and nobody else, none is passed over (exit_flags / exit_none), loops do not pass one on (by the type of run_exp_for / run_exp_while: they return results only); '
+            'run_exp_if tries the branches written, in order, each inside the same loop as the if, up to and including the first whose test passes, and reports the continue / break of that branch; '
+            'run_exp_test_br runs the tests of the heads written before the body (as written, after the positional-parameter pass), takes the branch iff the last pipeline of its test succeeded (or it is the else branch), '
+            'runs the body exactly then, once, with the in_loop flag it was given and reports its continue / break; run_exp_while makes one call of the branch runner on the while node per round -- so the test is run again '
+            'before every round -- as a loop body, and goes on exactly while the test passes and no break is met (a continue goes on to the next test); run_exp_for runs the body once per word in order with the '
+            'variable set to it, as a loop body, and ends early only at a break (or a failure under set -e); run_lines runs every top-level node outside any loop, and a text the grammar rejects is diagnosed and nothing of it runs.',
+    'note': 'which tree a script text HAS -- the pest grammar (grammar.pest, macro-generated parser, pest::iterators::Pair) -- is outside the verifier: nesting, the spellings of the keywords, and that unbalanced '
+            'keywords are rejected (repair fb11690: the top-level rule must reach the end of the text) are decided by the bounded stand-in only (fixed cases per clause, 12 unbalanced scripts, generated '
+            'nested programs against a reference interpreter of the structured semantics, through the real binary); get_for_var_name / get_for_result_list (the words of a for head) are external; run_exp_while may not terminate (a script loop); '
+            'the test child of a head is its first child (assumed, grammar).',
+}
+
 _PENDING = 'not yet brought under contract in this revision of /verif (work in progress; see DESIGN.md)'
 NOT_APPLICABLE = {
-    'C14': 'parse tree comes from a macro-generated pest parser and the external, lifetime-parameterised pest::iterators::Pair type; no contract within reach',
     'C16': '2-safety across five entry points; reduces to a tokenizer/pretty-printer round trip beyond the provable sub-language',
     'C18': 'semantics live in SQLite\'s SQL parser (bundled C library); SQL is built with format!, outside Verus',
     'C20': 'needs the lineread completer protocol, a populated filesystem and the escaped-word round trip (a recorded C01 violation)',
